@@ -111,10 +111,11 @@ theorem quiescent_iff {S : Sys} {c : Config} :
 /-! ## steps -/
 
 /-- the effect of a step, by the operation executed -/
-theorem step_cases {S : Sys} {c c' : Config} {t : Nat} (h : step S c t = some c') :
+theorem step_cases {S : Sys} {c c' : Config} {t k : Nat} (h : step S c t k = some c') :
     (∃ ch v, S.cur c t = some (.push ch v) ∧ canPush S c ch = true ∧
         c' = advance { c with queue := upd c.queue ch (c.queue ch ++ [⟨t, v⟩]) } t (.pushed t ch ⟨t, v⟩)) ∨
-    (∃ ch it rest, S.cur c t = some (.pop ch) ∧ c.queue ch = it :: rest ∧
+    (∃ op ch it rest, S.cur c t = some op ∧ (op = .pop ch ∨ ∃ chs, op = .sel chs ∧ selChan c chs k = some ch) ∧
+        c.queue ch = it :: rest ∧
         c' = advance { c with queue := upd c.queue ch rest } t (.popped t ch it)) ∨
     (∃ m, S.cur c t = some (.lock m) ∧ c.owner m = none ∧
         c' = advance { c with owner := upd c.owner m (some t) } t (.locked t m)) ∨
@@ -137,7 +138,16 @@ theorem step_cases {S : Sys} {c c' : Config} {t : Nat} (h : step S c t = some c'
     split at h
     · simp at h
     · rename_i it rest hq
-      right; left; exact ⟨ch, it, rest, hc, hq, (Option.some.inj h).symm⟩
+      right; left; exact ⟨_, ch, it, rest, hc, Or.inl rfl, hq, (Option.some.inj h).symm⟩
+  · rename_i chs hc
+    split at h
+    · simp at h
+    · rename_i ch hsel
+      split at h
+      · simp at h
+      · rename_i it rest hq
+        right; left
+        exact ⟨_, ch, it, rest, hc, Or.inr ⟨chs, rfl, hsel⟩, hq, (Option.some.inj h).symm⟩
   · rename_i m hc
     split at h
     · rename_i ho
@@ -163,16 +173,16 @@ theorem step_cases {S : Sys} {c c' : Config} {t : Nat} (h : step S c t = some c'
 /-- configurations reachable from the initial one -/
 inductive Reachable (S : Sys) : Config → Prop where
   | init : Reachable S init
-  | step {c c' : Config} {t : Nat} : Reachable S c → step S c t = some c' → Reachable S c'
+  | step {c c' : Config} {t k : Nat} : Reachable S c → step S c t k = some c' → Reachable S c'
 
-theorem reachable_stepOrStay {S : Sys} {c : Config} (h : Reachable S c) (t : Nat) :
+theorem reachable_stepOrStay {S : Sys} {c : Config} (h : Reachable S c) (t : Nat × Nat) :
     Reachable S (stepOrStay S c t) := by
   unfold stepOrStay
   split
   · rename_i c' hs; exact Reachable.step h hs
   · exact h
 
-theorem reachable_exec {S : Sys} {c : Config} (h : Reachable S c) (sched : List Nat) :
+theorem reachable_exec {S : Sys} {c : Config} (h : Reachable S c) (sched : List (Nat × Nat)) :
     Reachable S (exec S c sched) := by
   induction sched generalizing c with
   | nil => exact h
@@ -208,7 +218,7 @@ theorem inv_conservation {S : Sys} {c : Config} (h : Reachable S c) (ch : Nat) :
   induction h with
   | init => simp [init, recvLog, pushLog]
   | step _ hs ih =>
-    rcases step_cases hs with ⟨ch', v, _, _, rfl⟩ | ⟨ch', it, rest, _, hq, rfl⟩ | ⟨m, _, _, rfl⟩ |
+    rcases step_cases hs with ⟨ch', v, _, _, rfl⟩ | ⟨_, ch', it, rest, _, _, hq, rfl⟩ | ⟨m, _, _, rfl⟩ |
       ⟨m, _, _, rfl⟩ | ⟨k, _, rfl⟩ | ⟨k, v, _, _, rfl⟩
     · simp only [advance, pushLog_append, recvLog_append, ← ih, pushLog_single, recvLog_single]
       by_cases e : ch = ch'
@@ -228,8 +238,8 @@ theorem inv_pushLog_src {S : Sys} {c : Config} (h : Reachable S c) (ch p : Nat) 
     (pushLog ch c.trace).filter (fun it => it.src == p) = sends p ch ((S.prog p).take (c.pc p)) := by
   induction h with
   | init => simp [init, pushLog, sends]
-  | @step c c' t _ hs ih =>
-    rcases step_cases hs with ⟨ch', v, hc, _, rfl⟩ | ⟨ch', it, rest, hc, hq, rfl⟩ | ⟨m, hc, _, rfl⟩ |
+  | @step c c' t kk _ hs ih =>
+    rcases step_cases hs with ⟨ch', v, hc, _, rfl⟩ | ⟨op, ch', it, rest, hc, hrecv, hq, rfl⟩ | ⟨m, hc, _, rfl⟩ |
       ⟨m, hc, _, rfl⟩ | ⟨k, hc, rfl⟩ | ⟨k, v, hc, _, rfl⟩
     · simp only [advance, pushLog_append, List.filter_append, pushLog_single, ih]
       by_cases e : p = t
@@ -238,6 +248,15 @@ theorem inv_pushLog_src {S : Sys} {c : Config} (h : Reachable S c) (ch p : Nat) 
         by_cases e2 : ch' = ch <;> simp [sends, e2]
       · rw [upd_other _ _ e]
         by_cases e2 : ch' = ch <;> simp [e2, Ne.symm e]
+    · rcases hrecv with rfl | ⟨chs, rfl, _⟩
+      all_goals
+        simp only [advance, pushLog_append, List.filter_append, pushLog_single, ih]
+        by_cases e : p = t
+        · subst e
+          rw [upd_same, take_succ_of_cur hc, sends_append]
+          simp [sends]
+        · rw [upd_other _ _ e]
+          simp
     all_goals
       simp only [advance, pushLog_append, List.filter_append, pushLog_single, ih]
       by_cases e : p = t
@@ -253,8 +272,8 @@ theorem inv_capacity {S : Sys} {c : Config} (h : Reachable S c) (ch : Nat) :
     (c.queue ch).length ≤ max (S.cap ch) 1 := by
   induction h with
   | init => simp [init]
-  | @step c c' t _ hs ih =>
-    rcases step_cases hs with ⟨ch', v, hc, hp, rfl⟩ | ⟨ch', it, rest, hc, hq, rfl⟩ | ⟨m, hc, _, rfl⟩ |
+  | @step c c' t kk _ hs ih =>
+    rcases step_cases hs with ⟨ch', v, hc, hp, rfl⟩ | ⟨op, ch', it, rest, hc, hrecv, hq, rfl⟩ | ⟨m, hc, _, rfl⟩ |
       ⟨m, hc, _, rfl⟩ | ⟨k, hc, rfl⟩ | ⟨k, v, hc, _, rfl⟩
     · simp only [advance]
       by_cases e : ch = ch'
@@ -302,9 +321,9 @@ theorem inv_mutex {S : Sys} {c : Config} (h : Reachable S c) :
     (∀ m t, c.owner m = some t ↔ m ∈ inside S c t) ∧ ∀ t, (inside S c t).Nodup := by
   induction h with
   | init => simp [init, inside, held, heldFrom]
-  | @step c c' t _ hs ih =>
+  | @step c c' t kk _ hs ih =>
     obtain ⟨ih1, ih2⟩ := ih
-    rcases step_cases hs with ⟨ch', v, hc, hp, rfl⟩ | ⟨ch', it, rest, hc, hq, rfl⟩ | ⟨m, hc, ho, rfl⟩ |
+    rcases step_cases hs with ⟨ch', v, hc, hp, rfl⟩ | ⟨op, ch', it, rest, hc, hrecv, hq, rfl⟩ | ⟨m, hc, ho, rfl⟩ |
       ⟨m, hc, ho, rfl⟩ | ⟨k, hc, rfl⟩ | ⟨k, v, hc, _, rfl⟩
     -- push
     · have hself := inside_self (S := S) (c := c) (c' := advance { c with queue := upd c.queue ch' (c.queue ch' ++ [⟨t, v⟩]) } t (.pushed t ch' ⟨t, v⟩)) rfl hc
@@ -316,16 +335,18 @@ theorem inv_mutex {S : Sys} {c : Config} (h : Reachable S c) :
       · by_cases e : t' = t
         · subst e; rw [hself]; exact ih2 t'
         · rw [inside_other rfl e]; exact ih2 t'
-    -- pop
-    · have hself := inside_self (S := S) (c := c) (c' := advance { c with queue := upd c.queue ch' rest } t (.popped t ch' it)) rfl hc
-      simp only [heldFrom_single] at hself
-      refine ⟨fun m t' => ?_, fun t' => ?_⟩
-      · by_cases e : t' = t
-        · subst e; rw [hself]; exact ih1 m t'
-        · rw [inside_other rfl e]; exact ih1 m t'
-      · by_cases e : t' = t
-        · subst e; rw [hself]; exact ih2 t'
-        · rw [inside_other rfl e]; exact ih2 t'
+    -- pop / select
+    · rcases hrecv with rfl | ⟨chs, rfl, _⟩
+      all_goals
+        have hself := inside_self (S := S) (c := c) (c' := advance { c with queue := upd c.queue ch' rest } t (.popped t ch' it)) rfl hc
+        simp only [heldFrom_single] at hself
+        refine ⟨fun m t' => ?_, fun t' => ?_⟩
+        · by_cases e : t' = t
+          · subst e; rw [hself]; exact ih1 m t'
+          · rw [inside_other rfl e]; exact ih1 m t'
+        · by_cases e : t' = t
+          · subst e; rw [hself]; exact ih2 t'
+          · rw [inside_other rfl e]; exact ih2 t'
     -- lock
     · have hself := inside_self (S := S) (c := c) (c' := advance { c with owner := upd c.owner m (some t) } t (.locked t m)) rfl hc
       simp only [heldFrom_single] at hself
@@ -457,6 +478,13 @@ theorem guardedFrom_load {g : Nat → Nat} {hs : List Nat} {ops : List Op}
       simp only [List.getElem?_cons_succ] at hi
       have := ih h hi
       simpa [heldFrom] using this
+  | case9 hs chs rest ih =>
+    match i with
+    | 0 => simp at hi
+    | i + 1 =>
+      simp only [List.getElem?_cons_succ] at hi
+      have := ih h hi
+      simpa [heldFrom] using this
 
 theorem guarded_prog {S : Sys} {g : Nat → Nat} (hg : S.guarded g = true) (t : Nat) :
     guardedFrom g [] (S.prog t) = true := by
@@ -561,7 +589,7 @@ theorem inv_counter {S : Sys} {g : Nat → Nat} (hg : S.guarded g = true) {c : C
       have : pending S init k = 0 := sumTo_zero (fun t _ => by simp [pend, init])
       refine ⟨by simp [init, loadLog], ?_⟩
       rw [this]; simp [init, loadLog]
-  | @step c c' t hr hs ih =>
+  | @step c c' t kk hr hs ih =>
     obtain ⟨ihJ, ihK, ihL⟩ := ih
     obtain ⟨hm1, hm2⟩ := inv_mutex hr
     -- a thread that executes anything but a store has an empty register
@@ -606,7 +634,7 @@ theorem inv_counter {S : Sys} {g : Nat → Nat} (hg : S.guarded g = true) {c : C
           exact absurd rfl (hne t' k' v')
         rw [hl, hval, pending_same_reg k hreg]
         exact ihL k
-    rcases step_cases hs with ⟨ch', v, hc, hp, rfl⟩ | ⟨ch', it, rest, hc, hq, rfl⟩ | ⟨m, hc, ho, rfl⟩ |
+    rcases step_cases hs with ⟨ch', v, hc, hp, rfl⟩ | ⟨op, ch', it, rest, hc, hrecv, hq, rfl⟩ | ⟨m, hc, ho, rfl⟩ |
       ⟨m, hc, ho, rfl⟩ | ⟨k0, hc, rfl⟩ | ⟨k0, v0, hc, hr0, rfl⟩
     -- push
     · refine plain _ _ _ hc (by simp) (by simp) (by simp) rfl rfl rfl rfl ?_
@@ -614,12 +642,14 @@ theorem inv_counter {S : Sys} {g : Nat → Nat} (hg : S.guarded g = true) {c : C
       by_cases e : t' = t
       · subst e; rw [inside_self rfl hc]; rfl
       · exact inside_other rfl e
-    -- pop
-    · refine plain _ _ _ hc (by simp) (by simp) (by simp) rfl rfl rfl rfl ?_
-      intro t'
-      by_cases e : t' = t
-      · subst e; rw [inside_self rfl hc]; rfl
-      · exact inside_other rfl e
+    -- pop / select
+    · rcases hrecv with rfl | ⟨chs, rfl, _⟩
+      all_goals
+        refine plain _ _ _ hc (by simp) (by simp) (by simp) rfl rfl rfl rfl ?_
+        intro t'
+        by_cases e : t' = t
+        · subst e; rw [inside_self rfl hc]; rfl
+        · exact inside_other rfl e
     -- lock: `inside` changes for t, but t has an empty register
     · have hrn := regNone _ hc (by simp)
       refine ⟨?_, ?_, ?_⟩
@@ -824,9 +854,9 @@ theorem inv_mutexRun {S : Sys} {c : Config} (h : Reachable S c) :
       ∀ m t, (m, t) ∈ hs ↔ c.owner m = some t := by
   induction h with
   | init => exact ⟨[], by simp [init, mutexLog, mutexRun], List.nodup_nil, by simp [init]⟩
-  | @step c c' t hr hs ih =>
+  | @step c c' t kk hr hs ih =>
     obtain ⟨st, hrun, hnd, hiff⟩ := ih
-    rcases step_cases hs with ⟨ch', v, hc, hp, rfl⟩ | ⟨ch', it, rest, hc, hq, rfl⟩ | ⟨m, hc, ho, rfl⟩ |
+    rcases step_cases hs with ⟨ch', v, hc, hp, rfl⟩ | ⟨op, ch', it, rest, hc, hrecv, hq, rfl⟩ | ⟨m, hc, ho, rfl⟩ |
       ⟨m, hc, ho, rfl⟩ | ⟨k0, hc, rfl⟩ | ⟨k0, v0, hc, hr0, rfl⟩
     · exact ⟨st, by simp [advance, mutexLog_append, mutexLog_single, hrun], hnd, hiff⟩
     · exact ⟨st, by simp [advance, mutexLog_append, mutexLog_single, hrun], hnd, hiff⟩
@@ -1028,9 +1058,9 @@ theorem inv_popped_tid {S : Sys} {c : Config} (h : Reachable S c) :
     ∀ t ch it, Event.popped t ch it ∈ c.trace → t < S.progs.length := by
   induction h with
   | init => intro t ch it h; simp [init] at h
-  | @step c c' t0 hr hs ih =>
+  | @step c c' t0 kk hr hs ih =>
     intro t ch it hmem
-    rcases step_cases hs with ⟨ch', v, hc, hp, rfl⟩ | ⟨ch', it', rest, hc, hq, rfl⟩ | ⟨m, hc, ho, rfl⟩ |
+    rcases step_cases hs with ⟨ch', v, hc, hp, rfl⟩ | ⟨op, ch', it', rest, hc, hrecv, hq, rfl⟩ | ⟨m, hc, ho, rfl⟩ |
       ⟨m, hc, ho, rfl⟩ | ⟨k0, hc, rfl⟩ | ⟨k0, v0, hc, hr0, rfl⟩
     all_goals
       simp only [advance, List.mem_append, List.mem_singleton] at hmem
@@ -1063,6 +1093,7 @@ theorem compile_heldFrom (s : Stmt) (hs : List Nat) : heldFrom hs (compile s).1 
           rw [ha', hb']
   | push ch v => rfl
   | pop ch => rfl
+  | sel chs => rfl
   | incr k => rfl
   | withLock m b ih =>
     simp only [compile]
@@ -1334,5 +1365,31 @@ theorem obsFifo_ok {S : Sys} {nch : Nat} (hd : S.distinctSends nch = true) {c : 
         unfold fromP
         exact ((hperm.filter _).map _).length_eq
       rw [this]; simp
+
+/-! ## select -/
+
+theorem selChan_sound {c : Config} {chs : List Nat} {k ch : Nat} (h : selChan c chs k = some ch) :
+    ch ∈ chs ∧ c.queue ch ≠ [] := by
+  unfold selChan at h
+  have hm := List.mem_of_getElem? h
+  rw [List.mem_filter] at hm
+  refine ⟨hm.1, ?_⟩
+  intro he
+  rw [he] at hm
+  simp at hm
+
+theorem selChan_complete {c : Config} {chs : List Nat} {ch : Nat} (hm : ch ∈ chs)
+    (hq : c.queue ch ≠ []) : ∃ k, selChan c chs k = some ch := by
+  unfold selChan
+  have hin : ch ∈ chs.filter (fun ch => !(c.queue ch).isEmpty) := by
+    rw [List.mem_filter]
+    refine ⟨hm, ?_⟩
+    cases hc : c.queue ch with
+    | nil => exact absurd hc hq
+    | cons a l => simp
+  obtain ⟨i, hi, hget⟩ := List.getElem_of_mem hin
+  refine ⟨i, ?_⟩
+  show (chs.filter (fun ch => !(c.queue ch).isEmpty))[i % (chs.filter (fun ch => !(c.queue ch).isEmpty)).length]? = some ch
+  rw [Nat.mod_eq_of_lt hi, List.getElem?_eq_getElem hi, hget]
 
 end SlipVerif.Conc
